@@ -105,13 +105,13 @@ func Main(t *testing.T) {
 		type meta struct {
 			Name, Property, Doc, Level string
 			Quick, Thorough            int
-			Race                       bool
+			Race, RaceOnly             bool
 			Real, Stub                 []string
 		}
 		var ms []meta
 		for _, n := range scen.Names() {
 			sc := scen.Get(n)
-			ms = append(ms, meta{sc.Name, sc.Property, sc.Doc, sc.Level, sc.Quick, sc.Thorough, sc.Race, sc.Real, sc.Stub})
+			ms = append(ms, meta{sc.Name, sc.Property, sc.Doc, sc.Level, sc.Quick, sc.Thorough, sc.Race, sc.RaceOnly, sc.Real, sc.Stub})
 		}
 		writeJSON(*fOut, ms)
 		return
